@@ -1,6 +1,57 @@
-(* ProtoUndo -- part 2 of the proofs about the commit-protocol model Proto.v:
-   a commit that reports an error restores the durable state, except at three call positions.
-   (header with the exact results is completed at the end of the file's development; see HEADER below) *)
+(* ProtoUndo -- proofs about the commit-protocol model Proto.v, part 2: a commit that reports an error restores
+   the durable state EXACTLY (not only the view of ProtoProofs.v), for every transaction, every well-formed
+   pre-state and every fault position -- except at three call positions, which are classified and refuted.
+
+   RESULTS
+   * failed_commit_restores_exactly :
+       wf t d -> run t d (Some n) = (o, d', tr) -> o = Failed -> leaky t d n = false -> disk_equiv d' d.
+     failed_commit_restores_any: the same for an arbitrary fault argument (f : option nat).
+     failed_commit_restores_strict: disk_equiv_strict (identical handles) when no updated node has wip = 1.
+   * retry_after_failed_commit / retry_commits : from such a d' the fault-free run of the same transaction has the
+     same outcome as from d and an equivalent final disk (full corollary, outcome and disk).
+   * leak_A_blocks_retry, leak_A_details, unrestricted_statement_refuted, leak_B_orphan_registry_entry,
+     leak_C_orphan_root_blob : witnesses (vm_compute) that the restriction leaky = false is needed.
+   * wf_nonvacuous, leaky_positions : a concrete instance with roots, updated (one with a stale inactive id),
+     removed, added nodes and count deltas; its leaky positions are exactly 6, 11, 12, 18 of 31 calls.
+   * leak_E_removed_node_with_stale_inactive_id : a FOURTH defect of the same family, not in the list the file
+     was asked to cover (see wf_rem and the comment at the example).
+
+   disk_equiv: registry as EQUAL LOOKUP for every logical id (easier than "same set of handles": every call and
+   every decision reads the registry through lookup, and reg_set/reg_del have direct lookup lemmas), taken
+   MODULO expired inactive ids (handles compared after [norm]); same blob set; equal count_of; tlog, plog equal.
+   Why modulo: see the comment at [norm].
+
+   leaky t d n is computed from the run with the fault injected: the state in which phase 1 stops carries the
+   failed call at the head of its trace and the step number in cs.  leaky_spec spells the definition out;
+   leaky_trace is the same classification computed from the trace of run t d None (n-th call and the last step
+   logged up to it); their agreement is checked on the concrete instance (leaky_positions), not proved in general.
+
+   The hypothesis o = Failed is kept in the statements: o = Conflicted is NOT excluded by wf (a stale version in
+   fetched/updated/removed, an existing root, an in-progress claim all give Conflicted), and the conflict path
+   (rollback t false) is out of scope here.  Faults after the flip give o = Committed.
+
+   HYPOTHESES (record wf), each needed:
+   - NoDup of the registry's logical ids (reg_del removes one entry; lookup after a delete needs it);
+   - tlog d = false, plog d = None (the rollback removes both files unconditionally);
+   - roots/added are absent from the registry, roots disjoint from added/updated/removed ids; updated ids
+     distinct and disjoint from removed ids; allocated physical ids nonzero (a zero id is not undone by
+     rollbackUpdatedNodes: rb_updated_blobs skips it while BlobAdd wrote it);
+   - an updated node is not marked deleted and its inactive slot is free (wip = 0, inactive = 0) or expired
+     (wip = 1); a removed node is not marked deleted and has wip = 0 (finding E: with wip = 1 the undelete
+     resets wip to 0 and turns a reclaimable stale id into a permanent one);
+   - blob ids written are new, vals is contained in rb_vals; rb_stores negates deltas (per store sums);
+   - tracked t = false -> nothing to write (otherwise phase 1 is skipped but the rollback at cs = 11 still
+     applies rb_stores etc. to a disk on which nothing was done).
+
+   DISCREPANCIES with the informal statement of the task, all faithful to the model (and to the Go code it
+   transcribes): (1) exact restoration holds only modulo expired inactive ids; (2) finding E above;
+   (3) p = 0 and tracked = false corner cases listed under wf.  The model itself was not changed.
+
+   Proof structure: [desc g x] describes a disk x relative to d by the set g of forward steps whose effect it
+   carries (lookup = expect g, blob set between blobs d and bexp g, counts, plog).  F1..F7 are the forward
+   steps on disks, U1..U8 the undo steps; rbd is the rollback as a function on disks (rollback_dk), rbd_final
+   composes the undo steps when the flags agree with committedState (progc); phase1_post threads desc through
+   phase 1 at state level and yields, at the failing call, either "undoable" or the leak mark. *)
 From Coq Require Import List ZArith NArith Bool Lia.
 From Coq Require Import ZifyBool ZifyNat ZifyN.
 From SopVerif Require Import Proto ProtoProofs.
@@ -1352,13 +1403,17 @@ Proof.
     + rewrite B2, B'. apply desc_P7_P6. exact H.
 Qed.
 
-Lemma undoable_restores s : fault s = None -> undoable s -> disk_equiv (dk (rollback t true s)) d.
+(* a failed commit ends in: (a disk on which every forward step has been undone) followed by the removal of the log *)
+Definition restored (x : disk) : Prop :=
+  exists k x7, desc (mkP false false false false false false false k) x7 /\ x = ap x7 TlogRemove.
+
+Lemma undoable_restores s : fault s = None -> undoable s -> restored (dk (rollback t true s)).
 Proof.
-  intros Hf [v [p [Hv [Hp H]]]]. rewrite (rollback_dk true s Hf). eapply rbd_undo; eassumption.
+  intros Hf [v [p [Hv [Hp H]]]]. rewrite (rollback_dk true s Hf).
+  destruct (rbd_final _ v p _ Hv Hp H) as [k [x7 [H7 E]]]. exists k, x7. split; assumption.
 Qed.
 
-Lemma P6_restores s : fault s = None -> cs s = finalizeCommit -> desc P6 (dk s) ->
-  disk_equiv (dk (rollback t true s)) d.
+Lemma P6_restores s : fault s = None -> cs s = finalizeCommit -> desc P6 (dk s) -> restored (dk (rollback t true s)).
 Proof.
   intros Hf Hc H. apply undoable_restores; [exact Hf|]. exists true, false. rewrite Hc.
   split; [intros _; reflexivity|split; [intros E; discriminate E|exact H]].
@@ -1366,8 +1421,8 @@ Qed.
 
 Definition leak_of (r : flow * st) : bool := match r with (Stop, s1) => leakmark s1 | _ => false end.
 
-Lemma commit_failed_restores s s' : desc P0 (dk s) -> commit t s = (Failed, s') ->
-  leak_of (phase1 t s) = false -> disk_equiv (dk s') d.
+Lemma commit_failed_restored s s' : desc P0 (dk s) -> commit t s = (Failed, s') ->
+  leak_of (phase1 t s) = false -> restored (dk s').
 Proof.
   intros H Hc Hleak. unfold commit in Hc. pose proof (phase1_ok s H) as Hp.
   destruct (phase1 t s) as [[| |] s1]; cbn [stopped_ok leak_of] in *.
@@ -1391,41 +1446,735 @@ Proof.
   - inversion Hc.
 Qed.
 
-(* the strict variant: identical handles *)
-Lemma undoable_restores_strict s : (forall l h0, In l (ulids t) -> lookup (reg d) l = Some h0 -> wip h0 = 0) ->
-  fault s = None -> undoable s -> disk_equiv_strict (dk (rollback t true s)) d.
-Proof.
-  intros Hs Hf [v [p [Hv [Hp H]]]]. rewrite (rollback_dk true s Hf). eapply rbd_undo_strict; eassumption.
-Qed.
+Lemma restored_equiv x : restored x -> disk_equiv x d.
+Proof. intros [k [x7 [H E]]]. subst x. eapply U8. exact H. Qed.
 
-Lemma commit_failed_restores_strict s s' : (forall l h0, In l (ulids t) -> lookup (reg d) l = Some h0 -> wip h0 = 0) ->
-  desc P0 (dk s) -> commit t s = (Failed, s') -> leak_of (phase1 t s) = false -> disk_equiv_strict (dk s') d.
-Proof.
-  intros Hs H Hc Hleak.
-  assert (P6r : forall s0, fault s0 = None -> cs s0 = finalizeCommit -> desc P6 (dk s0) ->
-                 disk_equiv_strict (dk (rollback t true s0)) d).
-  { intros s0 Hf Hc0 H0. apply undoable_restores_strict; [exact Hs|exact Hf|]. exists true, false. rewrite Hc0.
-    split; [intros _; reflexivity|split; [intros E; discriminate E|exact H0]]. }
-  unfold commit in Hc. pose proof (phase1_ok s H) as Hp.
-  destruct (phase1 t s) as [[| |] s1]; cbn [stopped_ok leak_of] in *.
-  - unfold log in Hc.
-    destruct (issue_tot (TlogAdd finalizeCommit) (mkS (dk s1) (tr s1) (fault s1) finalizeCommit) eq_refl) as [[_ E]|[_ E]];
-      rewrite E in Hc; cbn [dk tr fault cs] in Hc.
-    + inversion Hc; subst s'.
-      set (s2 := mkS (dk s1) ((TlogAdd finalizeCommit, false) :: tr s1) None finalizeCommit).
-      destruct (best2 PlogRemove s2 eq_refl) as [A [B C]].
-      apply P6r; [exact A|rewrite C; reflexivity|]. rewrite B. cbn [dk s2]. apply desc_P7_P6. exact Hp.
-    + set (s2 := mkS (ap (dk s1) (TlogAdd finalizeCommit)) ((TlogAdd finalizeCommit, true) :: tr s1) (pf (fault s1)) finalizeCommit) in *.
-      destruct (nonempty (to_flip t s2)); [|inversion Hc].
-      destruct (issue_tot (RegUpd true (to_flip t s2)) s2 eq_refl) as [[_ E3]|[_ E3]]; rewrite E3 in Hc; [|inversion Hc].
-      inversion Hc; subst s'.
-      set (s3 := mkS (dk s2) ((RegUpd true (to_flip t s2), false) :: tr s2) None (cs s2)).
-      assert (H3 : desc P7 (dk s3)) by (cbn [dk s3 s2]; apply desc_tlog; exact Hp).
-      destruct (prb_ok s3 eq_refl H3) as [A [C B]].
-      apply P6r; [exact A|exact C|exact B].
-  - inversion Hc; subst s'. destruct Hp as [Hf [Hu|Hl]]; [|rewrite Hl in Hleak; discriminate].
-    apply undoable_restores_strict; assumption.
-  - inversion Hc.
-Qed.
+Lemma restored_strict x : (forall l h0, In l (ulids t) -> lookup (reg d) l = Some h0 -> wip h0 = 0) ->
+  restored x -> disk_equiv_strict x d.
+Proof. intros Hs [k [x7 [H E]]]. subst x. eapply U8s; eassumption. Qed.
 
 End Undo.
+
+(* ------------------------------------------------------------------ the classification and the main theorem *)
+
+(* leaky t d n: the call that the injected fault n hits is one of the leak positions (A), (B), (C).
+   It is read off the state in which phase 1 of the faulted run stops: the failed call is the head of
+   the trace (the trace up to there is the trace of the fault-free run), cs is the step it belongs to. *)
+Definition leaky (t : txn) (d : disk) (n : nat) : bool := leak_of t (phase1 t (init d (Some n))).
+
+(* the same classification computed from the trace of the fault-free run: the n-th call and the last
+   step number logged up to and including it (log sets committedState before it issues TlogAdd) *)
+Definition stage_at (tr0 : list (call * bool)) (n : nat) : N :=
+  fold_left (fun acc cb => match fst cb with TlogAdd f => f | _ => acc end) (firstn (S n) tr0) 0.
+Definition leaky_trace (t : txn) (d : disk) (n : nat) : bool :=
+  let tr0 := snd (run t d None) in
+  match nth_error tr0 n with
+  | Some (RegAdd _, _) => stage_at tr0 n =? commitNewRootNodes
+  | Some (BlobAdd _, _) => (stage_at tr0 n =? areFetchedItemsIntact) || (stage_at tr0 n =? commitAddedNodes)
+  | Some (TlogAdd f, _) => (f =? commitUpdatedNodes) && nonempty (updated t)
+  | _ => false
+  end.
+
+Lemma leaky_spec t d n : leaky t d n = true ->
+  exists s1 c rest, phase1 t (init d (Some n)) = (Stop, s1) /\ tr s1 = (c, false) :: rest
+    /\ ((exists hs, c = RegAdd hs /\ cs s1 = commitNewRootNodes)
+        \/ (exists ids, c = BlobAdd ids /\ (cs s1 = areFetchedItemsIntact \/ cs s1 = commitAddedNodes))
+        \/ (exists f, c = TlogAdd f /\ cs s1 = commitUpdatedNodes /\ updated t <> [])).
+Proof.
+  unfold leaky, leak_of. destruct (phase1 t (init d (Some n))) as [[| |] s1]; try discriminate.
+  unfold leakmark. destruct (tr s1) as [|[c b] rest] eqn:Et; try discriminate.
+  destruct c; try discriminate; destruct b; try discriminate; intros H; exists s1; eexists; exists rest;
+    (split; [reflexivity|split; [exact Et|]]).
+  - right; right. apply andb_true_iff in H. destruct H as [H1 H2]. apply N.eqb_eq in H1.
+    eexists. split; [reflexivity|split; [exact H1|]]. intros E. rewrite E in H2. discriminate.
+  - right; left. apply orb_true_iff in H. eexists. split; [reflexivity|].
+    destruct H as [H|H]; apply N.eqb_eq in H; [left|right]; exact H.
+  - left. apply N.eqb_eq in H. eexists. split; [reflexivity|exact H].
+Qed.
+
+Lemma failed_commit_restored t d f d' tr' :
+  wf t d -> run t d f = (Failed, d', tr') -> leak_of t (phase1 t (init d f)) = false -> restored t d d'.
+Proof.
+  intros Hwf Hrun Hleak. unfold run in Hrun. destruct (commit t (init d f)) as [o1 s1] eqn:E.
+  inversion Hrun; subst. apply (commit_failed_restored t d Hwf (init d f) s1); [|exact E|exact Hleak].
+  cbn [dk init]. apply desc_init. exact Hwf.
+Qed.
+
+Theorem failed_commit_restores_any t d f o d' tr' :
+  wf t d -> run t d f = (o, d', tr') -> o = Failed -> leak_of t (phase1 t (init d f)) = false -> disk_equiv d' d.
+Proof.
+  intros Hwf Hrun Ho Hleak. subst o. apply (restored_equiv t d Hwf). eapply failed_commit_restored; eassumption.
+Qed.
+
+Theorem failed_commit_restores_exactly t d n o d' tr' :
+  wf t d -> run t d (Some n) = (o, d', tr') -> o = Failed -> leaky t d n = false -> disk_equiv d' d.
+Proof. intros Hwf Hrun Ho Hleak. eapply failed_commit_restores_any; eassumption. Qed.
+
+(* with identical handles when no updated node carries an expired stale inactive id *)
+Theorem failed_commit_restores_strict t d n o d' tr' :
+  wf t d -> (forall l h0, In l (ulids t) -> lookup (reg d) l = Some h0 -> wip h0 = 0) ->
+  run t d (Some n) = (o, d', tr') -> o = Failed -> leaky t d n = false -> disk_equiv_strict d' d.
+Proof.
+  intros Hwf Hs Hrun Ho Hleak. subst o. apply (restored_strict t d Hwf _ Hs). eapply failed_commit_restored; eassumption.
+Qed.
+
+(* ------------------------------------------------------------------ a concrete well-formed instance *)
+
+Definition h10 := mkH 10 100 0 false 3 0 false.          (* never updated before *)
+Definition h11 := mkH 11 110 111 true 5 1 false.         (* updated before: stale id 110 in the inactive slot, wip = 1 *)
+Definition h12 := mkH 12 120 0 false 2 0 false.
+Definition d_ex : disk := mkD [h10; h11; h12] [100; 111; 120; 500] [(1, 10%Z)] false None.
+Definition t_ex : txn :=
+  mkT true [600] [600] [] [20] [(10, 3%Z)] [(10, 3%Z, 101); (11, 5%Z, 112)] [(12, 2%Z)] [30] [(1, 1%Z)] [(1, (-1)%Z)].
+
+Example wf_nonvacuous : wf t_ex d_ex.
+Proof.
+  constructor.
+  - cbn. repeat constructor; cbn; intuition discriminate.
+  - reflexivity.
+  - reflexivity.
+  - intros l [E|[]]; subst; reflexivity.
+  - intros l [E|[]]; subst; reflexivity.
+  - intros l [E|[]] [E'|[]]; subst; discriminate.
+  - intros l [E|[]] [E'|[E'|[]]]; subst; discriminate.
+  - intros l [E|[]] [E'|[]]; subst; discriminate.
+  - intros l [E|[E|[]]] [E'|[]]; subst; discriminate.
+  - cbn. repeat constructor; cbn; intuition discriminate.
+  - intros x [E|[E|[]]]; subst; cbn; discriminate.
+  - intros l h0 [E|[E|[]]] E0; subst; cbn in E0; inversion E0; cbn; auto.
+  - intros l h0 [E|[]] E0; subst; cbn in E0; inversion E0; cbn; auto.
+  - intros i [E|[]]; subst; left; reflexivity.
+  - intros i [E|[]]; subst; cbn; intuition discriminate.
+  - intros i [E|[]]; subst; cbn; intuition discriminate.
+  - intros i [E|[E|[]]]; subst; cbn; intuition discriminate.
+  - intros i [E|[]]; subst; cbn; intuition discriminate.
+  - intros s. unfold dsum, t_ex. cbn [deltas rb_stores fold_right fst snd]. destruct (N.eqb 1 s); lia.
+  - intros E; discriminate E.
+Qed.
+
+(* the fault-free run commits with 31 calls; exactly the positions 6 (RegAdd of the root, C), 11 (BlobAdd of the
+   staged updated nodes, A), 12 (TlogAdd commitUpdatedNodes, A) and 18 (BlobAdd of the added node, B) are leaky,
+   and the classification read off the faulted run agrees with the one read off the fault-free trace *)
+Example leaky_positions :
+  fst (fst (run t_ex d_ex None)) = Committed
+  /\ length (snd (run t_ex d_ex None)) = 31%nat
+  /\ filter (leaky t_ex d_ex) (List.seq 0 40) = [6; 11; 12; 18]%nat
+  /\ forallb (fun n => Bool.eqb (leaky t_ex d_ex n) (leaky_trace t_ex d_ex n)) (List.seq 0 40) = true
+  /\ map (fun n => nth_error (map fst (snd (run t_ex d_ex None))) n) [6; 11; 12; 18]%nat
+     = [Some (RegAdd [new_handle 20]); Some (BlobAdd [101; 112]); Some (TlogAdd commitUpdatedNodes); Some (BlobAdd [30])].
+Proof. vm_compute. repeat split. Qed.
+
+(* ------------------------------------------------------------------ refutation witnesses for the leak positions *)
+
+(* (A) one updated node; BlobAdd of the staged blob fails after the claim was written: the commit reports an
+   error, the claim (inactive id 101, wip = 2) stays, and the retry of the same transaction is a conflict *)
+Definition t_A : txn := mkT true [] [] [] [] [] [(10, 3%Z, 101)] [] [] [] [].
+Definition d_A : disk := mkD [h10] [100] [] false None.
+
+Example wf_A : wf t_A d_A.
+Proof.
+  constructor.
+  - cbn. repeat constructor; cbn; intuition discriminate.
+  - reflexivity.
+  - reflexivity.
+  - intros l [].
+  - intros l [].
+  - intros l [].
+  - intros l [].
+  - intros l [].
+  - intros l _ [].
+  - cbn. repeat constructor; cbn; intuition discriminate.
+  - intros x [E|[]]; subst; cbn; discriminate.
+  - intros l h0 [E|[]] E0; subst; cbn in E0; inversion E0; cbn; auto.
+  - intros l h0 [].
+  - intros i [].
+  - intros i [].
+  - intros i [].
+  - intros i [E|[]]; subst; cbn; intuition discriminate.
+  - intros i [].
+  - intros s. reflexivity.
+  - intros E; discriminate E.
+Qed.
+
+Example leak_A_blocks_retry :
+  exists t d n d1 tr1, run t d (Some n) = (Failed, d1, tr1) /\ (exists d2 tr2, run t d1 None = (Conflicted, d2, tr2)).
+Proof.
+  exists t_A, d_A, 6%nat. eexists. eexists. split; [vm_compute; reflexivity|].
+  eexists. eexists. vm_compute. reflexivity.
+Qed.
+
+(* the same witness, with everything that makes it a refutation of the unrestricted statement: it is well-formed,
+   the fault is at a leaky position, from d itself the transaction commits, and the handle of node 10 changed *)
+Example leak_A_details :
+  leaky t_A d_A 6 = true /\ leaky t_A d_A 7 = true
+  /\ fst (fst (run t_A d_A None)) = Committed
+  /\ lookup (reg (snd (fst (run t_A d_A (Some 6%nat))))) 10 = Some (mkH 10 100 101 false 3 2 false)
+  /\ lookup (reg (snd (fst (run t_A d_A (Some 7%nat))))) 10 = Some (mkH 10 100 101 false 3 2 false)
+  /\ blobs (snd (fst (run t_A d_A (Some 7%nat)))) = [100; 101].
+Proof. vm_compute. repeat split. Qed.
+
+Theorem unrestricted_statement_refuted :
+  exists t d n d1 tr1, wf t d /\ run t d (Some n) = (Failed, d1, tr1) /\ ~ disk_equiv d1 d.
+Proof.
+  exists t_A, d_A, 6%nat. eexists. eexists. split; [exact wf_A|]. split; [vm_compute; reflexivity|].
+  intros [H _]. specialize (H 10). vm_compute in H. discriminate H.
+Qed.
+
+(* (B) one added node; BlobAdd fails after RegAdd: the handle stays registered, its blob does not exist *)
+Definition t_B : txn := mkT true [] [] [] [] [] [] [] [30] [] [].
+Definition d_B : disk := mkD [] [] [] false None.
+
+Example leak_B_orphan_registry_entry :
+  exists t d n d1 tr1, run t d (Some n) = (Failed, d1, tr1)
+    /\ lookup (reg d) 30 = None /\ lookup (reg d1) 30 = Some (added_handle 30) /\ ~ In 30 (blobs d1)
+    /\ leaky t d n = true.
+Proof.
+  exists t_B, d_B, 8%nat. eexists. eexists. split; [vm_compute; reflexivity|].
+  split; [reflexivity|]. split; [reflexivity|]. split; [intros []|vm_compute; reflexivity].
+Qed.
+
+(* (C) one new root; RegAdd fails after BlobAdd: the root blob stays, no handle refers to it *)
+Definition t_C : txn := mkT true [] [] [] [20] [] [] [] [] [] [].
+
+Example leak_C_orphan_root_blob :
+  exists t d n d1 tr1, run t d (Some n) = (Failed, d1, tr1)
+    /\ ~ In 20 (blobs d) /\ In 20 (blobs d1) /\ lookup (reg d1) 20 = None
+    /\ leaky t d n = true.
+Proof.
+  exists t_C, d_B, 5%nat. eexists. eexists. split; [vm_compute; reflexivity|].
+  split; [intros []|]. split; [left; reflexivity|]. split; [reflexivity|vm_compute; reflexivity].
+Qed.
+
+(* (E) why wf_rem asks wip = 0 of a removed node.  Node 11 was updated by an earlier transaction (stale id 110
+   in its inactive slot, wip = 1: expired, any updater may reclaim the slot).  A transaction removes it and its
+   commit fails AFTER commitRemovedNodes (here: the log call announcing commitAddedNodes, not a leaky position);
+   rollbackRemovedNodes writes del := false, wip := 0 and keeps the stale id.  Now both ids are in use and the
+   slot is not expired any more: a transaction updating node 11, which commits from d, conflicts from d1. *)
+Definition t_E : txn := mkT true [] [] [] [] [] [] [(11, 5%Z)] [] [] [].
+Definition d_E : disk := mkD [h11] [111] [] false None.
+Definition t_U : txn := mkT true [] [] [] [] [] [(11, 5%Z, 113)] [] [] [] [].
+
+Example leak_E_removed_node_with_stale_inactive_id :
+  exists n d1 tr1, run t_E d_E (Some n) = (Failed, d1, tr1) /\ leaky t_E d_E n = false
+    /\ lookup (reg d_E) 11 = Some (mkH 11 110 111 true 5 1 false)
+    /\ lookup (reg d1) 11 = Some (mkH 11 110 111 true 5 0 false)
+    /\ fst (fst (run t_U d_E None)) = Committed /\ fst (fst (run t_U d1 None)) = Conflicted.
+Proof.
+  exists 8%nat. eexists. eexists. split; [vm_compute; reflexivity|]. vm_compute. repeat split.
+Qed.
+
+(* ================================================================== the retry after a failed commit
+
+   Consequence of the main theorem: from the disk d' left by a failed commit (non-leaky fault position) the
+   fault-free run of the same transaction has the same outcome as from d, and the final disks are equivalent.
+   The relation kept between the two runs: equal lookups except on the updated nodes, where the handle of the
+   first run may be the cleared version (inactive = 0, wip = 0) of a "free" handle of the second; the first
+   RegUpd of commitUpdatedNodes overwrites exactly these handles with identical claims, from then on the
+   registries agree on every id. *)
+
+Lemma lookup_app a b l : lookup (a ++ b) l = match lookup a l with Some h => Some h | None => lookup b l end.
+Proof. induction a as [|x a IH]; cbn [app lookup]; [reflexivity|]. destruct (lid x =? l); [reflexivity|exact IH]. Qed.
+
+Lemma fold_set_lookup hs : forall r l,
+  lookup (fold_left reg_set hs r) l = match lookup (rev hs) l with Some h => Some h | None => lookup r l end.
+Proof.
+  induction hs as [|x hs IH]; cbn [fold_left rev]; intros r l; [reflexivity|].
+  rewrite IH, lookup_app, lookup_reg_set. cbn [lookup]. destruct (lookup (rev hs) l); [reflexivity|].
+  destruct (lid x =? l); reflexivity.
+Qed.
+
+Lemma fold_del_lookup ids r l : NoDup (map lid r) ->
+  lookup (fold_left reg_del ids r) l = if memb l ids then None else lookup r l.
+Proof.
+  intros Hnd. destruct (memb l ids) eqn:E.
+  - apply lookup_fold_del_in; [exact Hnd|apply memb_true; exact E].
+  - apply lookup_fold_del. apply memb_false; exact E.
+Qed.
+
+Definition free (h : handle) : Prop := del h = false /\ (wip h = 1 \/ (wip h = 0 /\ inactive h = 0)).
+
+Definition lrel (U : list N) (r1 r2 : list handle) : Prop :=
+  forall l, lookup r1 l = lookup r2 l
+            \/ (In l U /\ exists h2, lookup r2 l = Some h2 /\ free h2 /\ lookup r1 l = Some (set_inactive h2 0 0)).
+
+Record dR (U : list N) (x1 x2 : disk) : Prop := mkDR {
+  r_reg : lrel U (reg x1) (reg x2);
+  r_nd1 : NoDup (map lid (reg x1));
+  r_nd2 : NoDup (map lid (reg x2));
+  r_blobs : forall i, In i (blobs x1) <-> In i (blobs x2);
+  r_cnt : forall s, cnt (counts x1) s = cnt (counts x2) s;
+  r_tlog : tlog x1 = tlog x2;
+  r_plog : plog x1 = plog x2
+}.
+
+Lemma lrel_nil r1 r2 : lrel [] r1 r2 -> forall l, lookup r1 l = lookup r2 l.
+Proof. intros H l. destruct (H l) as [E|[[] _]]. exact E. Qed.
+
+Lemma dR_mono U x1 x2 : dR [] x1 x2 -> dR U x1 x2.
+Proof.
+  intros [H1 H2 H3 H4 H5 H6 H7]. constructor; try assumption. intros l. left. exact (lrel_nil _ _ H1 l).
+Qed.
+
+Lemma lrel_present U r1 r2 l : lrel U r1 r2 ->
+  (match lookup r1 l with Some _ => true | None => false end) = (match lookup r2 l with Some _ => true | None => false end).
+Proof. intros H. destruct (H l) as [E|[_ [h2 [E2 [_ E1]]]]]; [rewrite E; reflexivity|rewrite E1, E2; reflexivity]. Qed.
+
+Lemma dR_equiv U x1 x2 : dR U x1 x2 -> disk_equiv x1 x2.
+Proof.
+  intros [H1 H2 H3 H4 H5 H6 H7]. split; [|split; [exact H4|split; [|split; assumption]]].
+  - intros l. destruct (H1 l) as [E|[_ [h2 [E2 [[Hd Hw] E1]]]]]; [rewrite E; reflexivity|].
+    rewrite E1, E2. cbn [option_map]. rewrite (norm_cleared h2 Hd Hw). reflexivity.
+  - intros s. rewrite !count_of_cnt. apply H5.
+Qed.
+
+Definition isS {A} (o : option A) : bool := match o with Some _ => true | None => false end.
+
+Lemma ap_R U c x1 x2 : dR U x1 x2 ->
+  isS (apply_call x1 c) = isS (apply_call x2 c) /\ dR U (ap x1 c) (ap x2 c).
+Proof.
+  intros [H1 H2 H3 H4 H5 H6 H7]. unfold ap.
+  destruct c as [f| |ids|ids|ids|hs|b hs|ids|ds|hs| |]; cbn [apply_call isS].
+  - split; [reflexivity|]. constructor; cbn [reg blobs counts tlog plog]; try assumption; reflexivity.
+  - rewrite H6. destruct (tlog x2) eqn:Et; cbn [isS]; (split; [reflexivity|]).
+    + constructor; cbn [reg blobs counts tlog plog]; try assumption. reflexivity.
+    + constructor; try assumption; congruence.
+  - split; [reflexivity|]. constructor; cbn [reg blobs counts tlog plog]; try assumption.
+    intros i. rewrite !blob_add_iff, H4. reflexivity.
+  - split; [reflexivity|]. constructor; cbn [reg blobs counts tlog plog]; try assumption.
+    intros i. rewrite !blob_del_iff, H4. reflexivity.
+  - split; [reflexivity|]. constructor; assumption.
+  - split; [reflexivity|]. constructor; cbn [reg blobs counts tlog plog]; try assumption.
+    + intros l. rewrite !fold_set_lookup. destruct (lookup (rev hs) l); [left; reflexivity|apply H1].
+    + apply nodup_fold_set; exact H2.
+    + apply nodup_fold_set; exact H3.
+  - split; [reflexivity|]. constructor; cbn [reg blobs counts tlog plog]; try assumption.
+    + intros l. rewrite !fold_set_lookup. destruct (lookup (rev hs) l); [left; reflexivity|apply H1].
+    + apply nodup_fold_set; exact H2.
+    + apply nodup_fold_set; exact H3.
+  - assert (Ef : forallb (fun l => match lookup (reg x1) l with Some _ => true | None => false end) ids
+               = forallb (fun l => match lookup (reg x2) l with Some _ => true | None => false end) ids).
+    { induction ids as [|i ids IH]; cbn [forallb]; [reflexivity|]. rewrite IH, (lrel_present U _ _ i H1). reflexivity. }
+    rewrite Ef. clear Ef. destruct (forallb _ ids); cbn [isS]; (split; [reflexivity|]); [|constructor; assumption].
+    constructor; cbn [reg blobs counts tlog plog]; try assumption.
+    + intros l. rewrite !fold_del_lookup by assumption. destruct (memb l ids); [left; reflexivity|apply H1].
+    + apply nodup_fold_del; exact H2.
+    + apply nodup_fold_del; exact H3.
+  - split; [reflexivity|]. constructor; cbn [reg blobs counts tlog plog]; try assumption.
+    intros s. rewrite !cnt_fold, H5. reflexivity.
+  - split; [reflexivity|]. constructor; cbn [reg blobs counts tlog plog]; try assumption. reflexivity.
+  - split; [reflexivity|]. constructor; assumption.
+  - split; [reflexivity|]. constructor; cbn [reg blobs counts tlog plog]; try assumption. reflexivity.
+Qed.
+
+(* the claims overwrite every handle on which the two registries may differ *)
+Lemma ap_R_claims U b hs x1 x2 : dR U x1 x2 -> (forall l, In l U -> In l (map lid hs)) ->
+  dR [] (ap x1 (RegUpd b hs)) (ap x2 (RegUpd b hs)).
+Proof.
+  intros [H1 H2 H3 H4 H5 H6 H7] HU. unfold ap; cbn [apply_call].
+  constructor; cbn [reg blobs counts tlog plog]; try assumption.
+  - intros l. left. rewrite !fold_set_lookup. destruct (lookup (rev hs) l) eqn:El; [reflexivity|].
+    destruct (H1 l) as [E|[Hl _]]; [exact E|]. exfalso.
+    apply lookup_none_lids in El. apply El. rewrite map_rev. apply in_rev. rewrite rev_involutive. exact (HU l Hl).
+  - apply nodup_fold_set; exact H2.
+  - apply nodup_fold_set; exact H3.
+Qed.
+
+Lemma issue_nf c s : fault s = None ->
+  issue c s = (isS (apply_call (dk s) c),
+               mkS (ap (dk s) c) ((c, isS (apply_call (dk s) c)) :: tr s) None (cs s)).
+Proof. intros Hf. unfold issue, ap. rewrite Hf. destruct (apply_call (dk s) c); reflexivity. Qed.
+
+Lemma nonempty_map {A B} (f : A -> B) (l : list A) : nonempty (map f l) = nonempty l.
+Proof. destruct l; reflexivity. Qed.
+
+Lemma reg_get_lids U r1 r2 ids : lrel U r1 r2 -> map lid (reg_get r1 ids) = map lid (reg_get r2 ids).
+Proof.
+  intros H. unfold reg_get. induction ids as [|i ids IH]; cbn [flat_map]; [reflexivity|].
+  rewrite !map_app, IH. f_equal. destruct (H i) as [E|[_ [h2 [E2 [_ E1]]]]].
+  - rewrite E. reflexivity.
+  - rewrite E1, E2. cbn [map]. rewrite set_inactive_lid. reflexivity.
+Qed.
+
+Lemma reg_get_eq r1 r2 ids : (forall l, In l ids -> lookup r1 l = lookup r2 l) -> reg_get r1 ids = reg_get r2 ids.
+Proof.
+  intros H. unfold reg_get. induction ids as [|i ids IH]; cbn [flat_map]; [reflexivity|].
+  rewrite (H i (or_introl eq_refl)), IH; [reflexivity|]. intros l Hl. apply H. right. exact Hl.
+Qed.
+
+Lemma versions_match_R U r1 r2 f : lrel U r1 r2 -> versions_match r1 f = versions_match r2 f.
+Proof.
+  intros H. unfold versions_match. induction f as [|p f IH]; cbn [forallb]; [reflexivity|]. rewrite IH. f_equal.
+  destruct (H (fst p)) as [E|[_ [h2 [E2 [_ E1]]]]].
+  - rewrite E. reflexivity.
+  - rewrite E1, E2. destruct (set_inactive_props h2 0 0) as [_ [_ [_ Ev]]]. rewrite Ev. reflexivity.
+Qed.
+
+Lemma both_in_use_inactive0 h : inactive h = 0 -> both_in_use h = false.
+Proof.
+  destruct h as [l a b ab v w dl]. unfold inactive, both_in_use. cbn. destruct ab; intros E; subst; cbn.
+  - reflexivity.
+  - apply andb_false_r.
+Qed.
+
+Lemma claim_free h v p : free h -> claim h v p = if Z.eqb (ver h) v then Some (set_inactive h p 2) else None.
+Proof.
+  intros [Hd Hw]. unfold claim. rewrite Hd. cbn [andb orb]. destruct (Z.eqb (ver h) v); cbn [negb]; [|reflexivity].
+  unfold allocate at 1. destruct (both_in_use h) eqn:Eb; [|reflexivity].
+  destruct Hw as [Hw|[_ Hi]]; [|rewrite (both_in_use_inactive0 h Hi) in Eb; discriminate].
+  unfold expired. rewrite Hw. cbn [N.eqb Pos.eqb]. unfold allocate.
+  assert (Ei : inactive (clear_inactive h) = 0).
+  { unfold clear_inactive. destruct (set_inactive_props h 0 0) as [_ [_ [Ei _]]]. exact Ei. }
+  rewrite (both_in_use_inactive0 _ Ei). rewrite set_inactive_twice. reflexivity.
+Qed.
+
+Lemma free_cleared h : free h -> free (set_inactive h 0 0).
+Proof.
+  intros [Hd _]. destruct (set_inactive_props h 0 0) as [_ [_ [Ei _]]]. split.
+  - destruct h as [l a b ab v w dl]. unfold set_inactive. cbn in *. destruct ab; exact Hd.
+  - right. split; [|exact Ei]. destruct h as [l a b ab v w dl]. unfold set_inactive. cbn. destruct ab; reflexivity.
+Qed.
+
+Lemma claim_cleared h v p : free h -> claim (set_inactive h 0 0) v p = claim h v p.
+Proof.
+  intros Hf. rewrite (claim_free _ v p (free_cleared h Hf)), (claim_free h v p Hf).
+  destruct (set_inactive_props h 0 0) as [_ [_ [_ Ev]]]. rewrite Ev.
+  change (set_inactive h 0 0) with (clear_inactive h). rewrite set_inactive_twice. reflexivity.
+Qed.
+
+Lemma claims_R U r1 r2 u : lrel U r1 r2 -> claims r1 u = claims r2 u.
+Proof.
+  intros H. induction u as [|[[l v] p] u IH]; cbn [claims]; [reflexivity|]. rewrite IH.
+  destruct (H l) as [E|[_ [h2 [E2 [Hf E1]]]]].
+  - rewrite E. reflexivity.
+  - rewrite E1, E2. rewrite (claim_cleared h2 v p Hf). reflexivity.
+Qed.
+
+Lemma marks_ext r1 r2 u : (forall l, In l (map fst u) -> lookup r1 l = lookup r2 l) -> marks r1 u = marks r2 u.
+Proof.
+  intros H. induction u as [|[l v] u IH]; cbn [marks]; [reflexivity|].
+  rewrite (H l (or_introl eq_refl)), IH; [reflexivity|]. intros l' Hl. apply H. right. exact Hl.
+Qed.
+
+Section Retry.
+Variable t : txn.
+Hypothesis Hur : forall l, In l (ulids t) -> ~ In l (rlids t).
+Hypothesis Hunt : tracked t = false -> updated t = [].
+
+(* the relation between the states of the two runs; w: the updated nodes have not been claimed yet *)
+Definition SRm (w : bool) (s1 s2 : st) : Prop :=
+  fault s1 = None /\ fault s2 = None /\ cs s1 = cs s2 /\
+  (if w then cs s1 <= areFetchedItemsIntact /\ dR (ulids t) (dk s1) (dk s2) else dR [] (dk s1) (dk s2)).
+
+Lemma SRm_dR w s1 s2 : SRm w s1 s2 -> dR (ulids t) (dk s1) (dk s2).
+Proof. intros [_ [_ [_ H]]]. destruct w; [tauto|apply dR_mono; exact H]. Qed.
+
+Lemma SRm_lrel w s1 s2 : SRm w s1 s2 -> lrel (ulids t) (reg (dk s1)) (reg (dk s2)).
+Proof. intros H. exact (r_reg _ _ _ (SRm_dR _ _ _ H)). Qed.
+
+Definition cong (w : bool) (p : st -> flow * st) : Prop :=
+  forall s1 s2, SRm w s1 s2 -> fst (p s1) = fst (p s2) /\ SRm w (snd (p s1)) (snd (p s2)).
+
+Lemma issue_SR w c s1 s2 : SRm w s1 s2 ->
+  fst (issue c s1) = fst (issue c s2) /\ SRm w (snd (issue c s1)) (snd (issue c s2)).
+Proof.
+  intros [F1 [F2 [Hc HR]]]. rewrite (issue_nf c s1 F1), (issue_nf c s2 F2). cbn [fst snd]. unfold SRm. cbn [fault cs dk].
+  destruct w.
+  - destruct HR as [Hle HR]. destruct (ap_R _ c _ _ HR) as [E R']. split; [exact E|]. tauto.
+  - destruct (ap_R _ c _ _ HR) as [E R']. split; [exact E|]. tauto.
+Qed.
+
+Lemma best_SR w c s1 s2 : SRm w s1 s2 -> SRm w (best (issue c) s1) (best (issue c) s2).
+Proof. intros H. unfold best. exact (proj2 (issue_SR w c s1 s2 H)). Qed.
+
+Lemma log_SR w f s1 s2 : (w = true -> f <= areFetchedItemsIntact) -> SRm w s1 s2 ->
+  fst (log f s1) = fst (log f s2) /\ SRm w (snd (log f s1)) (snd (log f s2)).
+Proof.
+  intros Hf [F1 [F2 [Hc HR]]]. unfold log. apply issue_SR. unfold SRm. cbn [fault cs dk].
+  split; [exact F1|split; [exact F2|split; [reflexivity|]]]. destruct w; [|exact HR]. split; [apply Hf; reflexivity|tauto].
+Qed.
+
+Lemma cong_lift (w : bool) (a : st -> bool * st) :
+  (forall s1 s2, SRm w s1 s2 -> fst (a s1) = fst (a s2) /\ SRm w (snd (a s1)) (snd (a s2))) -> cong w (lift a).
+Proof.
+  intros Ha s1 s2 HS. unfold lift. destruct (Ha s1 s2 HS) as [E R].
+  destruct (a s1) as [b1 s1'], (a s2) as [b2 s2']. cbn [fst snd] in *. subst b2. destruct b1; cbn [fst snd]; split; auto.
+Qed.
+
+Lemma cong_issue w c : cong w (lift (issue c)).
+Proof. apply cong_lift. intros s1 s2. apply issue_SR. Qed.
+
+Lemma cong_log w f : (w = true -> f <= areFetchedItemsIntact) -> cong w (lift (log f)).
+Proof. intros Hf. apply cong_lift. intros s1 s2. apply log_SR. exact Hf. Qed.
+
+Lemma cong_seq w a b : cong w a -> cong w b -> cong w (seq a b).
+Proof.
+  intros Ha Hb s1 s2 HS. unfold seq. destruct (Ha s1 s2 HS) as [E R].
+  destruct (a s1) as [f1 s1'], (a s2) as [f2 s2']. cbn [fst snd] in *. subst f2.
+  destruct f1; [apply Hb; exact R|cbn [fst snd]; split; auto|cbn [fst snd]; split; auto].
+Qed.
+
+Lemma cong_when w c p : cong w p -> cong w (when c p).
+Proof. intros Hp s1 s2 HS. unfold when. destruct c; [apply Hp; exact HS|cbn [fst snd]; split; auto]. Qed.
+
+Lemma cong_roots w : cong w (p_roots t).
+Proof.
+  unfold p_roots. apply cong_when. apply cong_seq; [apply cong_issue|]. intros s1 s2 HS.
+  assert (En : nonempty (reg_get (reg (dk s1)) (roots t)) = nonempty (reg_get (reg (dk s2)) (roots t))).
+  { rewrite <- (nonempty_map lid (reg_get (reg (dk s1)) (roots t))), <- (nonempty_map lid (reg_get (reg (dk s2)) (roots t))).
+    rewrite (reg_get_lids _ _ _ (roots t) (SRm_lrel _ _ _ HS)). reflexivity. }
+  rewrite En. destruct (nonempty (reg_get (reg (dk s2)) (roots t))); [cbn [fst snd]; split; auto|].
+  apply cong_seq; [apply cong_issue|apply cong_issue|exact HS].
+Qed.
+
+Lemma cong_fetched w : cong w (p_fetched t).
+Proof.
+  unfold p_fetched. apply cong_when. apply cong_seq; [apply cong_issue|]. intros s1 s2 HS.
+  rewrite (versions_match_R _ _ _ (fetched t) (SRm_lrel _ _ _ HS)).
+  destruct (versions_match (reg (dk s2)) (fetched t)); cbn [fst snd]; split; auto.
+Qed.
+
+Definition Mixed (r1 r2 : flow * st) : Prop :=
+  fst r1 = fst r2 /\ (SRm true (snd r1) (snd r2) \/ SRm false (snd r1) (snd r2))
+  /\ (fst r1 = Go -> SRm false (snd r1) (snd r2)).
+
+Lemma upd_R s1 s2 : SRm true s1 s2 -> Mixed (p_updated t s1) (p_updated t s2).
+Proof.
+  intros HS. unfold p_updated, when. destruct (nonempty (updated t)) eqn:En.
+  - unfold seq at 1 3. destruct (cong_issue true (RegGet (map (fun x => fst (fst x)) (updated t))) s1 s2 HS) as [E R].
+    destruct (lift (issue (RegGet (map (fun x => fst (fst x)) (updated t)))) s1) as [f1 s1'].
+    destruct (lift (issue (RegGet (map (fun x => fst (fst x)) (updated t)))) s2) as [f2 s2']. cbn [fst snd] in *. subst f2.
+    destruct f1; [|split; [reflexivity|split; [left; exact R|intros E; discriminate E]]
+                  |split; [reflexivity|split; [left; exact R|intros E; discriminate E]]].
+    rewrite (claims_R _ _ _ (updated t) (SRm_lrel _ _ _ R)).
+    destruct (claims (reg (dk s2')) (updated t)) as [hs|] eqn:Ec;
+      [|split; [reflexivity|split; [left; exact R|intros E; discriminate E]]].
+    destruct R as [F1 [F2 [Hc [Hle HR]]]].
+    unfold seq, lift at 1 3. rewrite (issue_nf _ s1' F1), (issue_nf _ s2' F2). cbn [apply_call isS].
+    set (s1'' := mkS (ap (dk s1') (RegUpd false hs)) ((RegUpd false hs, true) :: tr s1') None (cs s1')).
+    set (s2'' := mkS (ap (dk s2') (RegUpd false hs)) ((RegUpd false hs, true) :: tr s2') None (cs s2')).
+    assert (R2 : SRm false s1'' s2'').
+    { unfold SRm. cbn [fault cs dk s1'' s2'']. split; [reflexivity|split; [reflexivity|split; [exact Hc|]]].
+      apply (ap_R_claims (ulids t)); [exact HR|]. intros l Hl.
+      unfold ulids in Hl. apply in_map_iff in Hl. destruct Hl as [[[l1 v] p] [El Hu]]. cbn in El. subst l1.
+      destruct (claims_spec _ _ _ Ec) as [_ C2]. destruct (C2 _ _ _ Hu) as [h0 [h [E0 [Hin Ecl]]]].
+      apply in_map_iff. exists h. split; [|exact Hin]. rewrite (claim_lid _ _ _ _ Ecl). apply lookup_In in E0. tauto. }
+    destruct (cong_issue false (BlobAdd (map snd (updated t))) s1'' s2'' R2) as [E R3].
+    split; [exact E|split; [right; exact R3|intros _; exact R3]].
+  - apply nonempty_false in En. cbn [fst snd Mixed]. unfold Mixed. cbn [fst snd].
+    split; [reflexivity|]. assert (R : SRm false s1 s2).
+    { destruct HS as [F1 [F2 [Hc [_ HR]]]]. unfold SRm. split; [exact F1|split; [exact F2|split; [exact Hc|]]].
+      unfold ulids in HR. rewrite En in HR. exact HR. }
+    split; [right; exact R|intros _; exact R].
+Qed.
+
+Lemma cong_removed : cong false (p_removed t).
+Proof.
+  unfold p_removed. apply cong_when. apply cong_seq; [apply cong_issue|]. intros s1 s2 HS.
+  assert (Em : marks (reg (dk s1)) (removed t) = marks (reg (dk s2)) (removed t)).
+  { apply marks_ext. intros l _. destruct HS as [_ [_ [_ HR]]]. exact (lrel_nil _ _ (r_reg _ _ _ HR) l). }
+  rewrite Em. destruct (marks (reg (dk s2)) (removed t)) as [hs|]; [apply cong_issue; exact HS|cbn [fst snd]; split; auto].
+Qed.
+
+Lemma cong_added w : cong w (p_added t).
+Proof. unfold p_added. apply cong_when. apply cong_seq; apply cong_issue. Qed.
+
+Lemma cong_plog : cong false
+  (fun s => let uh := cur_handles s (map (fun x => fst (fst x)) (updated t)) in
+            let rh := cur_handles s (map fst (removed t)) in
+            when (nonempty uh || nonempty rh) (lift (issue (PlogAdd (uh ++ rh)))) s).
+Proof.
+  intros s1 s2 HS. cbv zeta. unfold cur_handles.
+  assert (El : forall l, lookup (reg (dk s1)) l = lookup (reg (dk s2)) l).
+  { destruct HS as [_ [_ [_ HR]]]. exact (lrel_nil _ _ (r_reg _ _ _ HR)). }
+  rewrite (reg_get_ext _ _ (map (fun x => fst (fst x)) (updated t)) El), (reg_get_ext _ _ (map fst (removed t)) El).
+  apply cong_when; [apply cong_issue|exact HS].
+Qed.
+
+Lemma mix_w a b : cong true a -> (forall s1 s2, SRm true s1 s2 -> Mixed (b s1) (b s2)) ->
+  forall s1 s2, SRm true s1 s2 -> Mixed (seq a b s1) (seq a b s2).
+Proof.
+  intros Ha Hb s1 s2 HS. unfold seq. destruct (Ha s1 s2 HS) as [E R].
+  destruct (a s1) as [f1 s1'], (a s2) as [f2 s2']. cbn [fst snd] in *. subst f2.
+  destruct f1; [apply Hb; exact R| |]; (split; [reflexivity|split; [left; exact R|intros E; discriminate E]]).
+Qed.
+
+Lemma mix_u b : cong false b -> forall s1 s2, SRm true s1 s2 -> Mixed (seq (p_updated t) b s1) (seq (p_updated t) b s2).
+Proof.
+  intros Hb s1 s2 HS. unfold seq. destruct (upd_R s1 s2 HS) as [E [Hor HGo]].
+  destruct (p_updated t s1) as [f1 s1'], (p_updated t s2) as [f2 s2']. cbn [fst snd] in *. subst f2.
+  destruct f1.
+  - destruct (Hb s1' s2' (HGo eq_refl)) as [E R]. split; [exact E|split; [right; exact R|intros _; exact R]].
+  - split; [reflexivity|split; [exact Hor|intros E; discriminate E]].
+  - split; [reflexivity|split; [exact Hor|intros E; discriminate E]].
+Qed.
+
+Lemma phase1_R s1 s2 : SRm true s1 s2 -> Mixed (phase1 t s1) (phase1 t s2).
+Proof.
+  intros HS. unfold phase1, when. destruct (tracked t) eqn:Htr.
+  - revert s1 s2 HS.
+    apply mix_w; [apply cong_log; intros _; discriminate|].
+    apply mix_w; [apply cong_log; intros _; discriminate|].
+    apply mix_w; [apply cong_when; apply cong_issue|].
+    apply mix_w; [apply cong_log; intros _; discriminate|].
+    apply mix_w; [apply cong_roots|].
+    apply mix_w; [apply cong_log; intros _; discriminate|].
+    apply mix_w; [apply cong_fetched|].
+    apply mix_u.
+    repeat (apply cong_seq; [first [apply cong_log; intros E; discriminate E | apply cong_removed | apply cong_added
+                                   | apply cong_when; apply cong_issue]|]).
+    apply cong_plog.
+  - assert (R : SRm false s1 s2).
+    { destruct HS as [F1 [F2 [Hc [_ HR]]]]. unfold SRm. split; [exact F1|split; [exact F2|split; [exact Hc|]]].
+      unfold ulids in HR. rewrite (Hunt eq_refl) in HR. exact HR. }
+    split; [reflexivity|split; [right; exact R|intros _; exact R]].
+Qed.
+
+Lemma if_ap_R U (cnd : bool) c x1 x2 : dR U x1 x2 -> dR U (if cnd then ap x1 c else x1) (if cnd then ap x2 c else x2).
+Proof. intros H. destruct cnd; [exact (proj2 (ap_R U c x1 x2 H))|exact H]. Qed.
+
+Lemma rbd_R U c b x1 x2 : (forall l, In l U -> ~ In l (rlids t)) -> (U = [] \/ (commitUpdatedNodes <? c) = false) ->
+  dR U x1 x2 -> dR U (rbd t c b x1) (rbd t c b x2).
+Proof.
+  intros Hdis Hskip H. unfold rbd.
+  assert (H1 : dR U (st1 c x1) (st1 c x2)) by (unfold st1; apply if_ap_R; exact H).
+  set (a1 := st1 c x1) in *. set (a2 := st1 c x2) in *.
+  assert (H2 : dR U (st2 t c a1) (st2 t c a2)) by (unfold st2; apply if_ap_R; exact H1).
+  set (b1 := st2 t c a1) in *. set (b2 := st2 t c a2) in *.
+  assert (H3 : dR U (st3 t c b1) (st3 t c b2)).
+  { unfold st3. destruct ((commitAddedNodes <? c) && nonempty (added t)); [|exact H2].
+    apply ap_R. apply ap_R. exact H2. }
+  set (c1 := st3 t c b1) in *. set (c2 := st3 t c b2) in *.
+  assert (H4 : dR U (st4 t c c1) (st4 t c c2)).
+  { unfold st4. destruct ((commitRemovedNodes <? c) && nonempty (removed t)); [|exact H3].
+    rewrite (reg_get_eq (reg c1) (reg c2) (rlids t)); [apply ap_R; exact H3|].
+    intros l Hl. destruct (r_reg _ _ _ H3 l) as [E|[HU _]]; [exact E|exfalso; exact (Hdis l HU Hl)]. }
+  set (e1 := st4 t c c1) in *. set (e2 := st4 t c c2) in *.
+  assert (H5 : dR U (st5 t c e1) (st5 t c e2)).
+  { unfold st5. destruct Hskip as [EU|Ec].
+    - destruct ((commitUpdatedNodes <? c) && nonempty (updated t)); [|exact H4]. cbv zeta.
+      assert (El : forall l, lookup (reg e1) l = lookup (reg e2) l).
+      { apply lrel_nil. rewrite <- EU. exact (r_reg _ _ _ H4). }
+      rewrite (reg_get_ext _ _ (ulids t) El). apply ap_R. apply ap_R. exact H4.
+    - rewrite Ec. cbn [andb]. exact H4. }
+  set (g1 := st5 t c e1) in *. set (g2 := st5 t c e2) in *.
+  assert (H6 : dR U (st6 t c g1) (st6 t c g2)).
+  { unfold st6. destruct ((commitNewRootNodes <? c) && nonempty (roots t)); [|exact H5].
+    unfold undo_roots. cbv zeta. pose proof (proj2 (ap_R U (BlobRemove (roots t)) _ _ H5)) as H5'.
+    rewrite (reg_get_lids U _ _ (roots t) (r_reg _ _ _ H5')).
+    destruct (nonempty (map lid (reg_get (reg (ap g2 (BlobRemove (roots t)))) (roots t)))); [apply ap_R|]; exact H5'. }
+  set (k1 := st6 t c g1) in *. set (k2 := st6 t c g2) in *.
+  assert (H7 : dR U (st7 t c b k1) (st7 t c b k2)) by (unfold st7; apply if_ap_R; exact H6).
+  apply ap_R. exact H7.
+Qed.
+
+Lemma rollback_R w b s1 s2 : SRm w s1 s2 -> dR (ulids t) (dk (rollback t b s1)) (dk (rollback t b s2)).
+Proof.
+  intros [F1 [F2 [Hc HR]]]. rewrite (rollback_dk t b s1 F1), (rollback_dk t b s2 F2). rewrite <- Hc. destruct w.
+  - destruct HR as [Hle HR]. apply rbd_R; [exact Hur| |exact HR]. right. apply N.ltb_ge.
+    unfold commitUpdatedNodes, areFetchedItemsIntact in *. lia.
+  - apply dR_mono. apply rbd_R; [intros l []|left; reflexivity|exact HR].
+Qed.
+
+Lemma prb_R s1 s2 : SRm false s1 s2 -> SRm false (priority_rollback s1) (priority_rollback s2).
+Proof.
+  intros HS. unfold priority_rollback. pose proof (best_SR false PlogGet s1 s2 HS) as H1.
+  set (a1 := best (issue PlogGet) s1) in *. set (a2 := best (issue PlogGet) s2) in *.
+  assert (Ep : plog (dk a1) = plog (dk a2)) by (destruct H1 as [_ [_ [_ HR]]]; exact (r_plog _ _ _ HR)).
+  rewrite Ep. destruct (plog (dk a2)) as [hs|]; [|apply best_SR; exact H1].
+  destruct (issue_SR false (RegUpd false hs) a1 a2 H1) as [E R].
+  destruct (issue (RegUpd false hs) a1) as [b1 c1], (issue (RegUpd false hs) a2) as [b2 c2]. cbn [fst snd] in *. subst b2.
+  destruct b1; [apply best_SR; exact R|exact R].
+Qed.
+
+Lemma cleanup_R fl s1 s2 : SRm false s1 s2 -> SRm false (cleanup fl t s1) (cleanup fl t s2).
+Proof.
+  intros HS. unfold cleanup.
+  destruct (log_SR false deleteObsoleteEntries s1 s2 (fun E => False_ind _ (Bool.diff_false_true E)) HS) as [E R].
+  destruct (log deleteObsoleteEntries s1) as [b1 c1], (log deleteObsoleteEntries s2) as [b2 c2]. cbn [fst snd] in *. subst b2.
+  destruct b1; [|exact R]. cbv zeta.
+  set (u := map inactive (firstn (length (updated t)) fl) ++ map active (skipn (length (updated t)) fl)).
+  assert (R2 : SRm false (if nonempty u then best (issue (BlobRemove u)) c1 else c1)
+                         (if nonempty u then best (issue (BlobRemove u)) c2 else c2))
+    by (destruct (nonempty u); [apply best_SR|]; exact R).
+  set (e1 := if nonempty u then best (issue (BlobRemove u)) c1 else c1) in *.
+  set (e2 := if nonempty u then best (issue (BlobRemove u)) c2 else c2) in *.
+  pose proof (best_SR false (RegRemove (map lid (skipn (length (updated t)) fl))) e1 e2 R2) as R3.
+  set (g1 := best (issue (RegRemove (map lid (skipn (length (updated t)) fl)))) e1) in *.
+  set (g2 := best (issue (RegRemove (map lid (skipn (length (updated t)) fl)))) e2) in *.
+  destruct (log_SR false deleteTrackedItemsValues g1 g2 (fun E => False_ind _ (Bool.diff_false_true E)) R3) as [E4 R4].
+  destruct (log deleteTrackedItemsValues g1) as [b1 k1], (log deleteTrackedItemsValues g2) as [b2 k2]. cbn [fst snd] in *. subst b2.
+  destruct b1; [|exact R4]. apply best_SR. destruct (nonempty (obsolete t)); [apply best_SR|]; exact R4.
+Qed.
+
+Lemma commit_R s1 s2 : SRm true s1 s2 ->
+  fst (commit t s1) = fst (commit t s2) /\ dR (ulids t) (dk (snd (commit t s1))) (dk (snd (commit t s2))).
+Proof.
+  intros HS. unfold commit. destruct (phase1_R s1 s2 HS) as [E [Hor HGo]].
+  destruct (phase1 t s1) as [f1 p1], (phase1 t s2) as [f2 p2]. cbn [fst snd] in *. subst f2. destruct f1.
+  - specialize (HGo eq_refl).
+    destruct (log_SR false finalizeCommit p1 p2 (fun E => False_ind _ (Bool.diff_false_true E)) HGo) as [E R].
+    destruct (log finalizeCommit p1) as [b1 q1], (log finalizeCommit p2) as [b2 q2]. cbn [fst snd] in *. subst b2.
+    destruct b1.
+    + assert (Efl : to_flip t q1 = to_flip t q2).
+      { unfold to_flip, cur_handles.
+        assert (El : forall l, lookup (reg (dk q1)) l = lookup (reg (dk q2)) l)
+          by (destruct R as [_ [_ [_ HR]]]; exact (lrel_nil _ _ (r_reg _ _ _ HR))).
+        rewrite (reg_get_ext _ _ (map (fun x => fst (fst x)) (updated t)) El), (reg_get_ext _ _ (map fst (removed t)) El).
+        reflexivity. }
+      rewrite Efl. destruct (nonempty (to_flip t q2)).
+      * destruct (issue_SR false (RegUpd true (to_flip t q2)) q1 q2 R) as [E3 R3].
+        destruct (issue (RegUpd true (to_flip t q2)) q1) as [b1 r1], (issue (RegUpd true (to_flip t q2)) q2) as [b2 r2].
+        cbn [fst snd] in *. subst b2. destruct b1; cbn [fst snd]; (split; [reflexivity|]).
+        -- apply (SRm_dR false). apply cleanup_R. apply best_SR. exact R3.
+        -- apply (rollback_R false). apply prb_R. exact R3.
+      * cbn [fst snd]. split; [reflexivity|]. apply (SRm_dR false). apply cleanup_R. exact R.
+    + cbn [fst snd]. split; [reflexivity|]. apply (rollback_R false). apply best_SR. exact R.
+  - cbn [fst snd]. split; [reflexivity|]. destruct Hor as [R|R]; [apply (rollback_R true)|apply (rollback_R false)]; exact R.
+  - cbn [fst snd]. split; [reflexivity|]. destruct Hor as [R|R]; [apply (rollback_R true)|apply (rollback_R false)]; exact R.
+Qed.
+
+End Retry.
+
+Lemma restored_R t d x : wf t d -> restored t d x -> dR (ulids t) x d.
+Proof.
+  intros Hwf [k [x7 [H E]]]. subst x. destruct (U8 t d Hwf k x7 H) as [_ [Hb [Hc [Htl Hpl]]]].
+  assert (Er : reg (ap x7 TlogRemove) = reg x7) by (unfold ap; cbn [apply_call]; destruct (tlog x7); reflexivity).
+  constructor; try assumption.
+  - intros l. rewrite Er, (d_reg t d _ _ H l). unfold expect, expectf. cbn [gk gu gm gr ga andb].
+    destruct (lookup (reg d) l) as [hd|] eqn:Ed; [|left; reflexivity].
+    destruct (k && memb l (ulids t)) eqn:Ek; [|left; reflexivity].
+    apply andb_true_iff in Ek. destruct Ek as [_ Hl]. apply memb_true in Hl.
+    right. split; [exact Hl|]. exists hd. split; [reflexivity|split; [exact (wf_upd _ _ Hwf l hd Hl Ed)|reflexivity]].
+  - rewrite Er. exact (d_nd t d _ _ H).
+  - exact (wf_nd _ _ Hwf).
+Qed.
+
+(* retry: from the disk left by a failed commit (fault at a non-leaky position) the fault-free run of the same
+   transaction has the same outcome as from the original disk, and equivalent final disks *)
+Theorem retry_after_failed_commit t d n o d' tr' :
+  wf t d -> run t d (Some n) = (o, d', tr') -> o = Failed -> leaky t d n = false ->
+  forall o1 d1 tr1 o2 d2 tr2, run t d None = (o1, d1, tr1) -> run t d' None = (o2, d2, tr2) ->
+    o2 = o1 /\ disk_equiv d2 d1.
+Proof.
+  intros Hwf Hrun Ho Hleak o1 d1 tr1 o2 d2 tr2 H1 H2. subst o.
+  pose proof (restored_R t d d' Hwf (failed_commit_restored t d (Some n) d' tr' Hwf Hrun Hleak)) as HR.
+  unfold run in H1, H2.
+  destruct (commit t (init d None)) as [oa sa] eqn:Ea. destruct (commit t (init d' None)) as [ob sb] eqn:Eb.
+  inversion H1; inversion H2; subst.
+  assert (HS : SRm t true (init d' None) (init d None)).
+  { unfold SRm, init. cbn [fault cs dk]. split; [reflexivity|split; [reflexivity|split; [reflexivity|split; [|exact HR]]]].
+    unfold areFetchedItemsIntact. lia. }
+  assert (Hunt : tracked t = false -> updated t = []) by (intros E; destruct (wf_untracked _ _ Hwf E) as [_ [_ [E3 _]]]; exact E3).
+  destruct (commit_R t (wf_ur _ _ Hwf) Hunt _ _ HS) as [E R]. rewrite Ea, Eb in E, R. cbn [fst snd] in E, R.
+  split; [exact E|]. eapply dR_equiv. exact R.
+Qed.
+
+(* in particular: when the transaction commits from d, the retry commits *)
+Corollary retry_commits t d n d' tr' d1 tr1 :
+  wf t d -> run t d (Some n) = (Failed, d', tr') -> leaky t d n = false -> run t d None = (Committed, d1, tr1) ->
+  exists d2 tr2, run t d' None = (Committed, d2, tr2) /\ disk_equiv d2 d1.
+Proof.
+  intros Hwf Hrun Hleak H1. destruct (run t d' None) as [[o2 d2] tr2] eqn:E2.
+  destruct (retry_after_failed_commit t d n Failed d' tr' Hwf Hrun eq_refl Hleak _ _ _ _ _ _ H1 E2) as [Eo Hd].
+  subst o2. exists d2, tr2. split; [reflexivity|exact Hd].
+Qed.
